@@ -39,6 +39,10 @@ pub struct Profile {
     /// (E5b: what the server renders must arrive byte for byte)
     #[serde(default)]
     pub exotic_text: bool,
+    /// sessions may be open when VACUUM runs (it aborts their transactions); each is ended - COMMIT,
+    /// ROLLBACK or a vanishing client - right after it, without another statement (finding V1)
+    #[serde(default)]
+    pub zombie_sessions: bool,
     /// every text value is padded to exactly this many bytes (uniform cell sizes, several pages of data)
     pub pad_text: usize,
     /// a burst of this many autocommit reads somewhere in the history: each logs BEGIN/COMMIT/END,
@@ -84,6 +88,7 @@ impl Profile {
             text_cols: true,
             big_text: false,
             exotic_text: false,
+            zombie_sessions: false,
             pad_text: 0,
             read_burst: 0,
             ddl_rich: false,
@@ -117,7 +122,7 @@ pub fn default_guards() -> Vec<String> {
         "collision_with_key_of_rolled_back_insert", // U1
         "unique_key_reuse_while_session_open",   // U2
         "arithmetic_update_on_indexed_table",    // D24
-        "session_open_across_vacuum",            // V1
+        "statement_in_session_after_vacuum_aborted_it", // V1
         "create_index_inside_session",           // X1
         "mixed_type_index_out_of_table_order",   // X3
         "alter_drop_column",                     // D17, D17b
@@ -1008,7 +1013,7 @@ impl Gen {
                 if self.p.has("vacuum_after_rolled_back_delete") && (!self.delete_rolled_back.is_empty() || !self.sess_deleted.is_empty()) {
                     continue;
                 }
-                if self.p.has("session_open_across_vacuum") {
+                if !self.p.zombie_sessions {
                     // V1: whatever a session does after VACUUM aborted it is visible at once
                     let open: Vec<u32> = self.sess.keys().copied().collect();
                     for k in open {
@@ -1018,6 +1023,13 @@ impl Gen {
                 self.emit(Event::Check);
                 self.vacuumed = true;
                 self.emit(Event::Vacuum);
+                // zombie_sessions: the transactions VACUUM has just aborted are ended by their clients
+                // straight away (their COMMIT may be answered either way; nothing they wrote may appear)
+                let open: Vec<u32> = self.sess.keys().copied().collect();
+                for k in open {
+                    self.must_commit.remove(&k);
+                    self.end_session(k);
+                }
                 self.emit(Event::Check);
             } else if take!(self.p.w_ddl) {
                 let tx = self.model.begin();
